@@ -34,9 +34,10 @@ class TypesGuesser():
             datetime.datetime: 'datetime',
             datetime.date: 'date',
         }.get(type(value))
-        ret = [('any', 'default', 0)]
+        # the type matching the python type of the value if all values of the column agree on it, else 'any'
+        ret = [('any', 'default', 1)]
         if jts_type is not None:
-            ret.append(('jts_type', 'default', 1))
+            ret.append((jts_type, 'default', 0))
         return ret
 
 
